@@ -32,7 +32,7 @@ class ScriptedSource(RandomSource):
 
     def random_float(self, min, max):  # noqa: A002
         k = self.randint(0, 2)
-        return [min, (min + max) / 2, max][k]
+        return float([min, (min + max) / 2, max][k])  # a float even for int-literal bounds
 
     def normalvariate(self, mean, sigma):
         k = self.randint(0, 2)
